@@ -194,6 +194,50 @@ func c08DirectCalls() []*c08call {
 		pc.want = pc.direct()
 		out = append(out, pc)
 	}
+	// top-level calls of the schema types that have no children of their own: a custom schema, a Preprocess in front of a slice / a struct,
+	// plain primitives - each with issues whose paths and messages are its own
+	customSch := z.CustomFunc(func(v *int, ctx z.Ctx) bool { return *v > 10 }, z.Message("custom says no"))
+	preSlice := z.Preprocess(func(d any, ctx z.Ctx) ([]string, error) { return strings.Split(d.(string), ","), nil }, z.Slice(z.String().Min(2)))
+	type preRec struct{ Name string }
+	preStruct := z.Preprocess(func(d any, ctx z.Ctx) (preRec, error) { return preRec{Name: d.(string)}, nil }, z.Struct(z.Schema{"Name": z.String().Min(4)}))
+	plainStr := z.String().Min(5).Email()
+	for _, which := range []string{"custom", "custom-ok", "pre-slice", "pre-struct", "string", "int-with-ctx"} {
+		which := which
+		tc := &c08call{mode: ref.Parse, desc: "top-level call: " + which}
+		tc.direct = func(opts ...z.ExecOption) string {
+			rl := func(l z.ZogIssueList) string {
+				var o []string
+				for _, e := range l {
+					o = append(o, e.Path+"|"+e.Code+"|"+e.Message)
+				}
+				sort.Strings(o)
+				return strings.Join(o, "; ")
+			}
+			switch which {
+			case "custom":
+				var n int
+				return rl(customSch.Parse(3, &n)) + fmt.Sprint(" n=", n)
+			case "custom-ok":
+				var n int
+				return rl(customSch.Parse(30, &n)) + fmt.Sprint(" n=", n)
+			case "pre-slice":
+				var l []string
+				return rl(preSlice.Parse("ab,c,def,g", &l)) + fmt.Sprint(" l=", l)
+			case "pre-struct":
+				var r preRec
+				return rl(preStruct.Parse("abc", &r)) + fmt.Sprint(" r=", r)
+			case "string":
+				var sv string
+				return rl(plainStr.Parse("ab", &sv)) + " s=" + sv
+			}
+			var n int
+			seen := ""
+			l := z.Int().TestFunc(func(v any, ctx z.Ctx) bool { seen = fmt.Sprint(ctx.Get("who")); return false }, z.Message("no")).Parse(5, &n, z.WithCtxValue("who", "int-call"))
+			return rl(l) + " who=" + seen
+		}
+		tc.want = tc.direct()
+		out = append(out, tc)
+	}
 	// messages in the language named by each call (i18n is installed for the whole round, see RunCase)
 	for _, lang := range []string{"es", "en", ""} {
 		lang := lang
